@@ -1,2 +1,164 @@
+"""Trait-solver lane (C19 only): generated static trait-bound assertions, type-checked by rustc against a scratch copy
+of /repo with and without the `serde` feature.  Obligations here are trait obligations discharged by rustc's trait
+solver, not SMT obligations (level: other)."""
+import json
+import os
+import re
+import shutil
+import subprocess
+import tempfile
+import time
+
+REPO = os.environ.get('VERIF_REPO', '/repo')
+
+ALL = ['ExponentialMovingAverage', 'SimpleMovingAverage', 'WeightedMovingAverage', 'StandardDeviation', 'MeanAbsoluteDeviation',
+       'RelativeStrengthIndex', 'Minimum', 'Maximum', 'FastStochastic', 'SlowStochastic', 'TrueRange', 'AverageTrueRange',
+       'MovingAverageConvergenceDivergence', 'PercentagePriceOscillator', 'CommodityChannelIndex', 'EfficiencyRatio',
+       'BollingerBands', 'ChandelierExit', 'KeltnerChannel', 'RateOfChange', 'MoneyFlowIndex', 'OnBalanceVolume']
+NO_F64 = ['CommodityChannelIndex', 'ChandelierExit', 'MoneyFlowIndex', 'OnBalanceVolume']
+PERIOD = ['ExponentialMovingAverage', 'SimpleMovingAverage', 'WeightedMovingAverage', 'StandardDeviation', 'MeanAbsoluteDeviation',
+          'RelativeStrengthIndex', 'Minimum', 'Maximum', 'FastStochastic', 'AverageTrueRange', 'CommodityChannelIndex', 'EfficiencyRatio',
+          'BollingerBands', 'ChandelierExit', 'KeltnerChannel', 'RateOfChange', 'MoneyFlowIndex']
+OUTPUTS = [('MovingAverageConvergenceDivergenceOutput', '(f64, f64, f64)'), ('PercentagePriceOscillatorOutput', '(f64, f64, f64)'),
+           ('ChandelierExitOutput', '(f64, f64)'), ('BollingerBandsOutput', None), ('KeltnerChannelOutput', None)]
+
+
+def program(serde):
+    L = []
+    L.append('#![allow(dead_code, unused_imports)]')
+    L.append('use ta::indicators::*;')
+    L.append('use ta::{Close, DataItem, High, Low, Next, Open, Period, Reset, Volume};')
+    L.append('use std::fmt::{Debug, Display};')
+    L.append("fn surface<T: Clone + Debug + Display + Default + Reset + Send + Sync + Unpin + 'static>() {}")
+    L.append('fn next_scalar<T: Next<f64>>() {}')
+    L.append("fn next_bar<T: for<'a> Next<&'a DataItem>>() {}")
+    L.append("fn next_user<T: for<'a> Next<&'a UserBar>>() {}")
+    L.append('fn has_period<T: Period>() {}')
+    L.append('fn output<T: Clone + Debug + PartialEq>() {}')
+    L.append('fn converts<A: Into<B>, B>() {}')
+    L.append("fn error_surface<T: std::error::Error + Clone + Eq + Send + Sync + 'static>() {}")
+    L.append("fn data_item<T: Clone + Debug + PartialEq + Open + High + Low + Close + Volume + Send + Sync + 'static>() {}")
+    if serde:
+        L.append('fn serde_surface<T: serde::Serialize + serde::de::DeserializeOwned>() {}')
+    L.append('struct UserBar;')
+    for tr, m in (('Open', 'open'), ('High', 'high'), ('Low', 'low'), ('Close', 'close'), ('Volume', 'volume')):
+        L.append('impl %s for UserBar { fn %s(&self) -> f64 { 1.0 } }' % (tr, m))
+    L.append('fn main() {')
+    asserts = []
+
+    def A(code, what):
+        asserts.append((len(L) + 1, what))
+        L.append('    ' + code)
+    for t in ALL:
+        A('surface::<%s>();' % t, '%s: Clone + Debug + Display + Default + Reset + Send + Sync + Unpin + \'static' % t)
+        A('next_bar::<%s>();' % t, '%s: Next<&DataItem>' % t)
+        A('next_user::<%s>();' % t, '%s: Next<&T> for a user type implementing the price traits' % t)
+        if t not in NO_F64:
+            A('next_scalar::<%s>();' % t, '%s: Next<f64>' % t)
+        if t in PERIOD:
+            A('has_period::<%s>();' % t, '%s: Period' % t)
+        if serde:
+            A('serde_surface::<%s>();' % t, '%s: Serialize + Deserialize (feature serde)' % t)
+    for o, tup in OUTPUTS:
+        A('output::<%s>();' % o, '%s: Clone + Debug + PartialEq' % o)
+        if tup:
+            A('converts::<%s, %s>();' % (o, tup), '%s: Into<%s>' % (o, tup))
+    A('error_surface::<ta::errors::TaError>();', 'TaError: std Error + Clone + Eq + Send + Sync')
+    A('data_item::<DataItem>();', 'DataItem: Clone + Debug + PartialEq + price traits + Send + Sync')
+    if serde:
+        A('serde_surface::<DataItem>();', 'DataItem: Serialize + Deserialize (feature serde)')
+    L.append('}')
+    return '\n'.join(L) + '\n', asserts
+
+
+def run_one(serde):
+    d = tempfile.mkdtemp(prefix='taverif-traits-')
+    try:
+        ta = os.path.join(d, 'ta')
+        os.makedirs(ta)
+        shutil.copytree(os.path.join(REPO, 'src'), os.path.join(ta, 'src'))
+        for f in ('Cargo.toml', 'Cargo.lock', 'README.md'):
+            if os.path.exists(os.path.join(REPO, f)):
+                shutil.copy(os.path.join(REPO, f), os.path.join(ta, f))
+        for sub in ('benches', 'examples', 'tests'):
+            if os.path.isdir(os.path.join(REPO, sub)):
+                shutil.copytree(os.path.join(REPO, sub), os.path.join(ta, sub))
+        c = os.path.join(d, 'client')
+        os.makedirs(os.path.join(c, 'src'))
+        deps = 'ta = { path = "../ta"%s }\n' % (', features = ["serde"]' if serde else '')
+        if serde:
+            deps += 'serde = "1"\n'
+        open(os.path.join(c, 'Cargo.toml'), 'w').write('[package]\nname = "ta_traits"\nversion = "0.0.0"\nedition = "2021"\n\n[dependencies]\n' + deps + '\n[workspace]\n')
+        shutil.copy(os.path.join(REPO, 'Cargo.lock'), os.path.join(c, 'Cargo.lock'))
+        prog, asserts = program(serde)
+        open(os.path.join(c, 'src', 'main.rs'), 'w').write(prog)
+        env = dict(os.environ)
+        env['CARGO_NET_OFFLINE'] = 'true'
+        env['CARGO_TARGET_DIR'] = os.path.join(d, 'target')
+        t0 = time.time()
+        p = subprocess.run(['cargo', 'check', '--offline', '--message-format=json'], cwd=c, capture_output=True, text=True, env=env)
+        wall = time.time() - t0
+        failed = {}
+        other_errors = []
+        for line in p.stdout.splitlines():
+            try:
+                j = json.loads(line)
+            except Exception:
+                continue
+            if j.get('reason') != 'compiler-message':
+                continue
+            m = j['message']
+            if m.get('level') != 'error':
+                continue
+            hit = False
+            if 'ta_traits' in j.get('package_id', '') or j.get('target', {}).get('name') == 'ta_traits':
+                for sp in m.get('spans', []):
+                    if sp.get('file_name', '').endswith('main.rs'):
+                        failed.setdefault(sp['line_start'], []).append(m.get('rendered', m.get('message', ''))[:1500])
+                        hit = True
+            if not hit:
+                other_errors.append(m.get('rendered', m.get('message', ''))[:800])
+        return {'rc': p.returncode, 'wall_s': round(wall, 1), 'asserts': asserts, 'failed': failed, 'other_errors': other_errors, 'program': prog,
+                'stderr_tail': p.stderr[-1500:]}
+    finally:
+        shutil.rmtree(d, ignore_errors=True)
+
+
 def lane(pid, tier, cov, assumptions):
-    return {'violations': [], 'undecided': ['traits lane not built yet']}
+    import driver
+    out = {'violations': [], 'undecided': []}
+    total = ok = 0
+    samples = []
+    be = {}
+    for serde in (False, True):
+        r = run_one(serde)
+        label = 'features=serde' if serde else 'default features'
+        if r['rc'] != 0 and not r['failed']:
+            out['undecided'].append('cargo check (%s) failed outside the assertion program: %s' % (label, (r['other_errors'] or [r['stderr_tail']])[0][:300]))
+            continue
+        for (line, what) in r['asserts']:
+            total += 1
+            if line in r['failed']:
+                ob = 'traits::%s::%s' % ('serde' if serde else 'default', re.sub(r'[^A-Za-z0-9]+', '_', what)[:80])
+                payload = {'property': pid, 'obligation': ob, 'lane': 'rustc-trait-solver', 'assertion': what, 'features': label,
+                           'client_program_line': r['program'].split('\n')[line - 1].strip(), 'verifier_output': r['failed'][line][:3],
+                           'counterexample': 'the generic use site on client_program_line does not type-check against the real crate',
+                           'replay': 'python3 /verif/check.py C19'}
+                path = driver.write_replay(pid, ob, payload)
+                out['violations'].append((ob, path, True))
+            else:
+                ok += 1
+                if len(samples) < 6 and (line % 17 == 0 or len(samples) < 2):
+                    samples.append({'obligation': what, 'features': label})
+        be[label] = {'assertions': len(r['asserts']), 'failed': len(r['failed']), 'wall_s': r['wall_s']}
+    cov['obligations'] += total
+    cov['discharged'] += ok
+    cov['samples'] += samples
+    cov['lanes'].append('rustc trait solver')
+    cov['back_ends']['rustc trait solver (cargo check of a generated assertion program)'] = be
+    cov['explanation'] = ('%d static trait-bound assertions (one generic use site per documented bound and per indicator, with and without the serde feature) '
+                          'type-check against a scratch copy of /repo; decided by rustc\'s trait solver once and for all client programs requiring these bounds' % total)
+    cov['checker_cmd'] = 'cargo check --offline (generated crate ta_traits, path dependency on a scratch copy of /repo), twice: default features and --features serde'
+    cov['trusted_base'] = ['rustc type checker / trait solver', 'the generated assertion program (vlib/traits_lane.py) lists the documented bounds']
+    assumptions.append('obligations are trait obligations discharged by rustc, not SMT obligations; thread-safety is Send + Sync as the type system sees it')
+    return out
